@@ -37,7 +37,8 @@ RULE = (
     "owner names drawn from a few base suffixes over a small label alphabet so that suffixes repeat (including "
     "case-differing repeats and arbitrary-octet labels), NS/CNAME/PTR/MX/SOA rdata with embedded names, opaque rdata of "
     "~12 further types, messages pushed across offset 0x3FFF, EDNS versions/flags/payloads/option lists, extended rcodes, "
-    "TSIG, with and without an origin (incl. the root); plus a mutated-wire stream (count/rdlen/ttl/pointer/class edits, "
+    "TSIG, with and without an origin (incl. the root); direct dns.renderer.Renderer scripts with a tight max_size in which the "
+    "caller catches TooBig and keeps adding rrsets whose owner / NS / MX / SOA names end in or equal the rolled-back owner; plus a mutated-wire stream (count/rdlen/ttl/pointer/class edits, "
     "truncation, trailing junk) and header-field pools; a case is non-trivial if its key (kind + content) is new"
 )
 TRUSTED_BASE = [
@@ -713,9 +714,66 @@ def eval_hdr(ctx: Ctx, c: dict):
     ctx.count("hdr")
 
 
+def eval_steps(ctx: Ctx, c: dict):
+    """direct dns.renderer.Renderer use with a tight max_size: every add in order, the caller catching TooBig and carrying
+    on; then write_header.  The result must contain exactly the records whose add succeeded, every pointer must target an
+    earlier occurrence of exactly that suffix (independent decoder), every surviving table entry must decode to its key,
+    from_wire must return those records, and octets/table/trace must equal the model's."""
+    pin_time()
+    m, _ = mk_message(c)
+    ms = c["max_size"]
+    r = dns.renderer.Renderer(m.id, int(m.flags), ms, m.origin)
+    tr = []
+    kept = [[], [], [], []]
+    for sec in range(4):
+        for i, rr in enumerate(m.sections[sec]):
+            try:
+                if sec == 0:
+                    r.add_question(rr.name, rr.rdtype, rr.rdclass)
+                else:
+                    r.add_rrset(sec, rr, want_shuffle=False)
+                tr.append(f"ok:{r.output.tell()}:{len(r.compress)}")
+                kept[sec].append(c["sections"][sec][i])
+            except dns.exception.TooBig:
+                tr.append(f"big:{r.output.tell()}:{len(r.compress)}")
+                ctx.count("steps.rollback")
+    r.write_header()
+    w = r.get_wire()
+    tbl = ";".join(f"{enc_labels(k.labels)}@{v}" for k, v in r.compress.items())
+    ctx.corr(f"c03.steps {ms} {msg_tokens(c)}", f"ok {' '.join(tr)} out={hx(w)} tbl={tbl}", c)
+    ctx.count("steps")
+    ck = dict(c, sections=kept)
+    for clause, text in check_walk(ck, w):
+        sig = {"pointer": "C03/renderer/compression/pointer-target", "name-differs": "C03/renderer/compression/name-differs",
+               "undecodable": "C03/renderer/compression/undecodable", "counts": "C03/renderer/counts",
+               "record-differs": "C03/renderer/record-differs"}[clause]
+        fail(ctx, sig, "after a caught TooBig: " + text, c)
+    for k, v in r.compress.items():
+        if v >= len(w):
+            fail(ctx, "C03/renderer/compression/table-dangling", f"table entry {k} -> {v} beyond the {len(w)}-octet buffer", c)
+            continue
+        try:
+            got, _ = walk_name(w, v, set(), [])
+        except WalkError as e:
+            fail(ctx, "C03/renderer/compression/table-unsound", f"entry {k} -> {v}: {e}", c)
+            continue
+        if lower(got) != lower(list(k.labels)):
+            fail(ctx, "C03/renderer/compression/table-unsound", f"entry {k} -> {v} decodes to {got!r}", c)
+    pl, m2 = parse(w, origin=m.origin)
+    if m2 is None:
+        fail(ctx, f"C03/renderer/from_wire/raises/{pl.split(' ')[-1]}", f"from_wire of the Renderer's output -> {pl}", c)
+        return
+    mk, _ = mk_message(ck)
+    d = same_message(mk, m2, m.origin)
+    if d:
+        fail(ctx, "C03/renderer/parse_render/value-differs", f"parsed message differs from the records added: {d}", c)
+
+
 def eval_case(ctx: Ctx, c: dict):
     k = c["kind"]
-    if k == "msg":
+    if k == "steps":
+        eval_steps(ctx, c)
+    elif k == "msg":
         eval_msg(ctx, c)
     elif k == "wire":
         eval_wire(ctx, c)
@@ -1240,6 +1298,77 @@ def gen_straddle(rng, start, variant):
             "sections": [[q], an, au, ad], "opt": None, "tsig": None, "max_size": 65535}
 
 
+def gen_rollback(rng, variant):
+    """a Renderer script: question, fillers, an rrset with a fresh owner name that does not fit (TooBig, rolled back — its
+    owner was registered in the compression table at exactly the rollback offset), then small rrsets whose owner / NS / MX
+    targets end in (or equal) the rolled-back owner, one of them possibly written at the very same offset"""
+    use_origin = variant % 4 == 3
+    base = [b"example", b""]
+    origin = base if use_origin else None
+
+    def nm(*labels):
+        return hexl(list(labels) + ([] if use_origin else base))
+
+    def rr(name, rdtype, rds, ttl=300):
+        return {"name": name, "rdclass": 1, "rdtype": rdtype, "covers": 0, "deleting": None, "ttl": ttl, "rdatas": rds}
+
+    def raw(n):
+        return {"k": "o", "b": rng.bytes(n).hex()}
+
+    B = [[b"big"], [b"x", b"big"], [b"Big"], [b"big", b"sub"]][(variant // 4) % 4]
+    q = [] if rng.chance(1, 4) else [rr(nm(b"www"), 1, [], 0)]
+    fills = [rr(nm(b"f%d" % i), 65280, [raw(rng.below(40))]) for i in range(rng.below(3))]
+    if variant % 2 == 0:
+        big = rr(nm(*B), 65281, [raw(60 + rng.below(80)) for _ in range(3 + rng.below(4))])
+    else:
+        big = rr(nm(*B), 2, [{"k": "n", "n": nm(b"t%d" % i, b"y" * 40, *B)} for i in range(4 + rng.below(4))])
+    pool = [
+        rr(nm(*B), 1, [raw(4)]),                                          # the same owner again, fewer records
+        rr(nm(b"ns", *B), 1, [raw(4)]),                                   # an owner below it
+        rr(nm(b"www"), 2, [{"k": "n", "n": nm(b"ns", *B)}]),              # NS target below it
+        rr(nm(b"mail"), 15, [{"k": "m", "p": 10, "n": nm(*B)}]),          # MX target equal to it
+        rr(nm(b"other"), 1, [raw(4)]),                                    # something else written where it stood
+        rr(nm(*[l.swapcase() for l in B]), 28, [raw(16)]),                # the owner in the other case
+        rr(nm(b"soa"), 6, [{"k": "s", "m": nm(b"m", *B), "r": nm(*B), "i": [1, 2, 3, 4, 5]}]),
+    ]
+    k = 2 + rng.below(len(pool) - 1)
+    chosen = []
+    avail = list(pool)
+    for _ in range(k):
+        chosen.append(avail.pop(rng.below(len(avail))))
+    secs = sorted(1 + rng.below(3) for _ in chosen)
+    sections = [q, fills + [big], [], []]
+    for sc, x in zip(secs, chosen):
+        sections[sc].append(x)
+    c = {"kind": "steps", "id": rng.below(65536), "flags": rng.choice([0, 0x8400, 0x0100]), "origin": None if origin is None else hexl(origin),
+         "request_payload": 0, "pad": 0, "sections": sections, "opt": None, "tsig": None, "max_size": 65535}
+    # measure (unlimited Renderer): prefix, the big set, everything but the big set
+    m, _ = mk_message(c)
+
+    def measure(skip_big, stop_at_big):
+        r = dns.renderer.Renderer(m.id, int(m.flags), 65535, m.origin)
+        for sec in range(4):
+            for i, x in enumerate(m.sections[sec]):
+                isbig = sec == 1 and i == len(fills)
+                if isbig and stop_at_big:
+                    p = r.output.tell()
+                    r.add_rrset(sec, x, want_shuffle=False)
+                    return p, r.output.tell() - p
+                if isbig and skip_big:
+                    continue
+                if sec == 0:
+                    r.add_question(x.name, x.rdtype, x.rdclass)
+                else:
+                    r.add_rrset(sec, x, want_shuffle=False)
+        return r.output.tell(), 0
+
+    P, bigsize = measure(False, True)
+    T, _ = measure(True, False)
+    ms = T + rng.below(4) if rng.chance(2, 3) else P + rng.below(bigsize)
+    c["max_size"] = max(P, min(ms, P + bigsize - 1))
+    return c
+
+
 def run_one(ctx, c):
     ctx.case((c["kind"], json.dumps(c, sort_keys=True)), sample=c if len(json.dumps(c)) < 1500 else None)
     eval_case(ctx, c)
@@ -1273,6 +1402,10 @@ def generate(ctx: Ctx, scale: int, rng):
             c = gen_straddle(rng, start, variant)
             run_one(ctx, c)
             ctx.count("straddle-3fff")
+    # direct Renderer use: catch TooBig, keep adding names that end in the rolled-back owner
+    for i in range(n(6)):
+        for variant in range(16):
+            run_one(ctx, gen_rollback(rng, variant))
     for i in range(n(260)):
         try:
             c = gen_update(rng)
@@ -1368,7 +1501,8 @@ LEVEL = {
             "compression_sound — in every rendering, with or without truncation, every compression-table entry "
             "(every possible pointer target) lies before the end of the buffer, at most at 0x3FFF, and decodes with the library's own "
             "strictly-backward-pointer decoder to its suffix up to case, and every name written decodes from its own offset to itself; "
-            "rcode/opcode header codecs are exact inverses (complete tables). TIE-ONLY (differential correspondence — rendered octets, parsed "
+            "rcode/opcode header codecs are exact inverses (complete tables); that a rolled-back add leaves no table entry behind is C08.rollback_exact "
+            "(here the direct-Renderer stream ties it to the code: octets, table and trace equal the model's, independent pointer decoder, from_wire). TIE-ONLY (differential correspondence — rendered octets, parsed "
             "messages, section counts, header codecs; model == implementation on every generated case — plus the direct oracle with an "
             "independent wire walker): byte-identical re-rendering WITHOUT the case guard; updates with EDNS padding; one_rr_per_rrset parsing; "
             "mutated/ill-formed wires (error classification).",
